@@ -213,7 +213,74 @@ def w_history(case):
             'violations': viol}
 
 
-WORKERS = {'fix_histories': w_history,
+def w_sbml(case):
+    """SBML-driven likelihood / posterior (solver stand-in): S1 score vs plain score,
+    gradient vs central differences of chi's own score, after optional preparation of
+    the USER model (sensitivities enabled before the likelihood is built), with fixed
+    parameters and with one injected solver failure."""
+    import warnings
+    import chi.library
+    from ..env import refsim
+    viol = []
+    lib = chi.library.ModelLibrary()
+    if case['model'] == 'erlotinib':
+        m = lib.erlotinib_tumour_growth_inhibition_model()
+        m.set_outputs(['central.drug_concentration', 'global.tumour_volume'])
+        ems = [chi.GaussianErrorModel(), chi.LogNormalErrorModel()]
+        obs = [[1.1, 0.7, 0.3], [1.4, 1.9]]
+        times = [[0.5, 1.2, 2.5], [1.2, 3.0]]
+    elif case['model'] == 'koch':
+        m = lib.tumour_growth_inhibition_model_koch()
+        ems = [chi.MultiplicativeGaussianErrorModel()]
+        obs = [[1.3, 1.9, 2.4]]
+        times = [[0.4, 1.1, 2.0]]
+    else:
+        m = lib.one_compartment_pk_model()
+        ems = [chi.ConstantAndMultiplicativeGaussianErrorModel()]
+        obs = [[0.9, 0.6, 0.2]]
+        times = [[0.3, 1.0, 2.2]]
+    if case['model'] != 'koch' and case.get('route'):
+        m.set_administration('central', direct=case['route'] == 'direct')
+        m.set_dosing_regimen(2.0, start=0.2, duration=0.4, period=1.0, num=2)
+    if case.get('pre_sens'):
+        m.enable_sensitivities(True)
+    ll = chi.LogLikelihood(m, ems, obs, times)
+    names = ll.get_parameter_names()
+    n_full = len(names)
+    x_full = np.array(vals.reals('c03.sb', n_full, 0.4, 1.5, case['seed']))
+    for i, nme in enumerate(names):
+        if 'Sigma' in nme:
+            x_full[i] = 0.2 + 0.1 * (i % 3)
+    fixed = case.get('fix') or []
+    if fixed:
+        ll.fix_parameters({names[i]: float(x_full[i]) for i in fixed})
+    free = [i for i in range(n_full) if i not in fixed]
+    x = x_full[free]
+    lab = 'SBML %s route=%s pre_sens=%s fixed=%s' % (
+        case['model'], case.get('route'), case.get('pre_sens'), fixed)
+    out = check_pair(viol, lab, ll, ll.evaluateS1, x, None, len(free))
+    # one injected solver failure: both evaluations report -inf, later ones recover
+    if case.get('inject'):
+        for which in ('call', 'S1'):
+            refsim.Counters.fail_runs = {refsim.Counters.runs}
+            with warnings.catch_warnings(record=True):
+                warnings.simplefilter('always')
+                r = ll(x.copy()) if which == 'call' else ll.evaluateS1(x.copy())[0]
+            refsim.Counters.fail_runs = set()
+            if r != -np.inf:
+                viol.append({'sub': 'inject', 'message': 'a failing simulation does '
+                             'not give a score of -inf (%s, %s)' % (lab, which),
+                             'expected': -np.inf, 'observed': r,
+                             'behaviour': 'inject'})
+        again = ll(x.copy())
+        if not tol.close(again, out[0]):
+            viol.append({'sub': 'recover', 'message': 'score after a failed '
+                         'simulation differs (%s)' % lab, 'expected': out[0],
+                         'observed': again, 'behaviour': 'recover'})
+    return {'transitions': 14, 'outcome': tol.rnd(out, 7), 'violations': viol}
+
+
+WORKERS = {'sbml': w_sbml, 'fix_histories': w_history,
            'individual': w_individual, 'hierarchical': w_hier,
            'boundary_individual': w_individual, 'boundary_hier': w_hier}
 
@@ -314,8 +381,23 @@ def build(tier, seed):
                 continue
             # a history that fixes every parameter leaves nothing to differentiate
             hist.append({'base': hbase, 'ops': list(seq)})
+    sb = []
+    for model, nfull in (('lib1', 5), ('erlotinib', 9), ('koch', 6)):
+        routes = [None] if model == 'koch' else [None, 'direct', 'indirect']
+        for route in routes:
+            nf = nfull + (2 if route == 'indirect' else 0)
+            for pre in (False, True):
+                fixes = [[], [0], [nf - 1], [1, 2]]
+                if tier == 'thorough':
+                    fixes += [[i] for i in range(1, nf - 1)] + [[0, nf - 2]]
+                for fx in fixes:
+                    sb.append({'model': model, 'route': route, 'pre_sens': pre,
+                               'fix': fx, 'inject': not fx, 'seed': seed})
     return {
         'parts': [
+            Part('sbml', sb, w_sbml,
+                 'SBML-driven likelihoods on the solver stand-in: models x routes x '
+                 'pre-enabled sensitivities x fixed subsets x injected failure'),
             Part('fix_histories', hist, w_history,
                  'all sequences over {call, S1, fix, release} up to depth %d'
                  % depth),
